@@ -224,18 +224,22 @@ func seqString(evs []event) string {
 
 // viewOK: what a filter (or the recorder) saw through the Get*FromContext accessors equals the model.
 func viewOK(e event, o routemodel.Outcome) string {
+	who := fmt.Sprintf("%s%d", e.Kind, e.Filter)
+	if e.Kind == "call" {
+		who = "the resource method"
+	}
 	if e.CtxMethod != o.Method {
-		return fmt.Sprintf("%s%d saw method %q, routed method is %q", e.Kind, e.Filter, e.CtxMethod, o.Method)
+		return fmt.Sprintf("%s saw method %q, routed method is %q", who, e.CtxMethod, o.Method)
 	}
 	if want := expectedSegs(o.NodePath); e.Segs != want {
-		return fmt.Sprintf("%s%d saw resource path %s, routed resource is %s", e.Kind, e.Filter, e.Segs, want)
+		return fmt.Sprintf("%s saw resource path %s, routed resource is %s", who, e.Segs, want)
 	}
 	if e.CtxName != o.Name {
-		return fmt.Sprintf("%s%d saw finder/action name %q, routed one is %q", e.Kind, e.Filter, e.CtxName, o.Name)
+		return fmt.Sprintf("%s saw finder/action name %q, routed one is %q", who, e.CtxName, o.Name)
 	}
 	if e.Kind != "call" && o.KeysDecode == routemodel.DecodeOK {
 		if e.KeyErr != "" || !sameStrings(e.Keys, o.Keys) {
-			return fmt.Sprintf("%s%d saw entity keys %q (err %q), request has %q", e.Kind, e.Filter, e.Keys, e.KeyErr, o.Keys)
+			return fmt.Sprintf("%s saw entity keys %q (err %q), request has %q", who, e.Keys, e.KeyErr, o.Keys)
 		}
 	}
 	return ""
